@@ -11,19 +11,21 @@ from vlib.sut import load
 PROPERTY = 'C02'
 RULE = ('(programs) Hypothesis-generated sequences of up to 60 direct Portfolio.transact_asset / '
         'update_market_value_of_asset calls over 1-5 assets with non-decreasing timestamps (incl. repeated '
-        'instants), integer quantities biased to close exactly, flip through zero and re-open, prices down to 0.01, '
+        'instants), integer quantities biased to close exactly, flip through zero and re-open, prices down to 0.0004, '
         'commissions >= 0; (histories) the M-broker rule-based machine where fills arrive through orders and marks '
         'are the stub mid at every clock update (incl. ExecutionHandler batches: one broker update per order; fills '
         'belong to the submitting portfolio). Oracle after every step: reported quantity == signed sum of '
         'tapped fill quantities; asset listed iff that sum != 0; market value per asset and in total == quantity x '
         'latest price (latest fill or mark, marks only while held, marks precede fills inside one broker update); '
         'total equity == cash + market value. Non-trivial = contains a close-to-zero-then-reopen or a one-fill '
-        'flip, and >= 2 fills (programs: also a mark after a fill on a held asset).')
+        'flip, and >= 2 fills (programs: also a mark after a fill on a held asset).'
+        " Round-10 reach: sub-cent quotes (0.004, 0.001, 0.0004); the machine may create a portfolio called 'master'.")
 ASSUMPTIONS = [
     'cash is read from the portfolio (C01 owns the cash oracle)',
     'whole-number quantities, positive prices; up to 60 steps, 5 assets, 4 portfolios',
     'float tolerance 1e-9 of the gross market value',
 ]
+PRICES = st.one_of(gen.prices, gen.prices, gen.prices, st.sampled_from([0.001, 0.004, 0.0004]))      # incl. sub-cent quotes
 T0 = pd.Timestamp('2021-03-01 15:00:00', tz='UTC')
 NAMES = ['EQ:A', 'EQ:AB', 'EQ:A_1', 'EQ:Brk.b', 'EQ:Z9']
 
@@ -141,7 +143,7 @@ def programs(draw):
             net[a] += qty
             comm = draw(st.one_of(st.just(0.0), st.floats(0, 50).map(lambda x: round(x, 4)),
                                   st.sampled_from([0.0, 0.004, -0.75, -12.5])))       # incl. sub-cent fees and rebates
-            price = draw(gen.prices)
+            price = draw(PRICES)
             if draw(st.sampled_from([False] * 11 + [True])):
                 # an order sized down to zero shares, at the price the asset was last seen at
                 net[a] -= qty
@@ -150,7 +152,7 @@ def programs(draw):
             lastp[a] = price
             ops.append(['fill', dt, a, qty, price, comm])
         else:
-            mp = draw(gen.prices)
+            mp = draw(PRICES)
             if net[a] != 0:
                 lastp[a] = mp
             ops.append(['mark', dt, a, mp])
